@@ -115,6 +115,9 @@ pub struct ServerModel {
     pub issued_ids: BTreeSet<u32>,
     pub issued_sids: BTreeSet<u32>,
     pub streams: BTreeMap<u32, St>,
+    /// request ids whose accept failed because their stream was gone: whether such an id is
+    /// spent the statement does not say, so a later accept or reject of it may go either way
+    pub limbo: BTreeMap<u32, Pending>,
 }
 
 fn same_f64(a: f64, b: f64) -> bool {
@@ -131,6 +134,7 @@ impl ServerModel {
             issued_ids: BTreeSet::new(),
             issued_sids: BTreeSet::new(),
             streams: BTreeMap::new(),
+            limbo: BTreeMap::new(),
         }
     }
 
@@ -415,6 +419,28 @@ impl ServerModel {
     /// Application call `accept_request(id)`; `ok` = the call returned Ok, `outs` = its tracked
     /// outputs.  Returns the successor state or a description of the violation.
     pub fn accept(&self, id: u32, ok: bool, outs: &[SOut]) -> Result<ServerModel, (&'static str, String)> {
+        if let Some(p) = self.limbo.get(&id) {
+            // an earlier accept of this request failed because its stream did not exist; the
+            // stream may have been created since
+            let mut m = self.clone();
+            if ok {
+                m.limbo.remove(&id);
+                if let Pending::Publish { sid, key } | Pending::Play { sid, key } = p {
+                    let is_pub = matches!(p, Pending::Publish { .. });
+                    let st = if self.streams.contains_key(sid) {
+                        if is_pub {
+                            St::Publishing(key.clone())
+                        } else {
+                            St::Playing(key.clone())
+                        }
+                    } else {
+                        St::Unknown
+                    };
+                    m.streams.insert(*sid, st);
+                }
+            }
+            return Ok(m);
+        }
         match self.pending.get(&id) {
             None => {
                 if ok {
@@ -446,6 +472,8 @@ impl ServerModel {
                     // deleted meanwhile / never created: P Err (no change) or Ok (unknown)
                     if ok {
                         m.streams.insert(*sid, St::Unknown);
+                    } else {
+                        m.limbo.insert(id, self.pending.get(&id).cloned().unwrap());
                     }
                     return Ok(m);
                 }
@@ -469,6 +497,13 @@ impl ServerModel {
     }
 
     pub fn reject(&self, id: u32, ok: bool, outs: &[SOut]) -> Result<ServerModel, (&'static str, String)> {
+        if self.limbo.contains_key(&id) {
+            let mut m = self.clone();
+            if ok {
+                m.limbo.remove(&id);
+            }
+            return Ok(m);
+        }
         match self.pending.get(&id) {
             None => {
                 if ok {
